@@ -2,6 +2,7 @@
 
 pub mod c09;
 pub mod c10;
+pub mod c12;
 pub mod c14;
 pub mod c19;
 
@@ -9,12 +10,13 @@ use crate::case::{Case, CaseReport, Verdict};
 use crate::plan::Tier;
 use crate::run::RunResult;
 
-pub const CLAIMED: [&str; 4] = ["C09", "C10", "C14", "C19"];
+pub const CLAIMED: [&str; 5] = ["C09", "C10", "C12", "C14", "C19"];
 
 pub fn generate(property: &str, seed: u64, tier: Tier) -> Case {
     match property {
         "C09" => c09::generate(seed, tier),
         "C10" => c10::generate(seed, tier),
+        "C12" => c12::generate(seed, tier),
         "C14" => c14::generate(seed, tier),
         "C19" => c19::generate(seed, tier),
         other => panic!("unknown property {other}"),
@@ -25,6 +27,7 @@ pub fn evaluate(case: &Case, results: &[Vec<RunResult>], report: &mut CaseReport
     match case.property.as_str() {
         "C09" => c09::evaluate(case, results),
         "C10" => c10::evaluate(case, results, report),
+        "C12" => c12::evaluate(case, results, report),
         "C14" => c14::evaluate(case, results, report),
         "C19" => c19::evaluate(case, results, report),
         other => panic!("unknown property {other}"),
@@ -38,6 +41,8 @@ pub fn budget(property: &str, tier: Tier) -> u64 {
         ("C09", Tier::Thorough) => 400_000,
         ("C10", Tier::Quick) => 30_000,
         ("C10", Tier::Thorough) => 1_500_000,
+        ("C12", Tier::Quick) => 80_000,
+        ("C12", Tier::Thorough) => 3_000_000,
         ("C14", Tier::Quick) => 20_000,
         ("C14", Tier::Thorough) => 800_000,
         ("C19", Tier::Quick) => 8_000,
@@ -64,6 +69,7 @@ pub fn expected_probes(property: &str) -> Vec<&'static str> {
 /// Name of the digest set whose size is reported as `distinct_nontrivial`.
 pub fn nontrivial_set(property: &str) -> &'static str {
     match property {
+        "C12" => "nontrivial_c12",
         "C14" => "nontrivial_c14",
         "C19" => "nontrivial_c19",
         _ => "nontrivial_world",
@@ -76,6 +82,7 @@ pub fn rule(property: &str) -> String {
         "C09" => "distinct_nontrivial counts distinct worlds (digest of all input bytes and environment) that declare at least two types/enums AND in which at least two different order traces were actually served at the seams (so the comparison between schedules was not vacuous).",
         "C14" => "distinct_nontrivial counts distinct worlds (input bytes + environment + pre-existing output state) in which at least one environment fault or name collision was present AND the build reached a checked verdict (inventory of every output file compared with the declarations, or the expected error for a collision).",
         "C19" => "distinct_nontrivial counts distinct base worlds whose edit chain produced at least two different worlds, all accepted, with a non-empty set of observed output files that was compared across the chain.",
+        "C12" => "distinct_nontrivial counts distinct faulted worlds in which the injected faults had an effect visible to the build (the parse result of some file, the set of input nodes, the output-directory state, the path spelling or the API call history differs from the un-faulted base world) and that were actually executed (not skipped as asking for a large table).",
         "C10" => "distinct_nontrivial counts distinct dependency-graph worlds with at least two types/enums in which at least two different resolution-order traces were served.",
         _ => "distinct_nontrivial counts distinct worlds with at least two items and at least two distinct order traces served.",
     };
